@@ -37,6 +37,14 @@ CHECKS={
         "Initialisation: every operator x population sizes 0..3 x dimensions x domains for every tape of menu words over the first 4 / 5 draws (count, unevaluated, dimension, closed-interval bounds, permutation validity, stack effect). Boundary repair: 4 operators x 4 domains x {bounds, their float neighbours, interior points, a - k*w and b + k*w for k in 1/4..10^3, mixed 3-d vectors}: terminates, result within [a,b] (4 ulp), inside coordinates bit-identical, second application changes nothing.",
         "Non-termination is decided by a 10 s wall budget per case (terminating cases take milliseconds) -- the only place where time enters a verdict. 'Inside' is the closed interval [a,b]. Finite solutions only.",
         "DESIGN.md 5 C14"),
+ "C10":("grid enumeration + choice-tape explorer","exhaustive enumeration of every condition over its (n, value) grid, all value histories of the stateful change-of condition up to a length bound, all Boolean formulas up to a depth/arity bound with all truth assignments and single faults, loops run with counting bodies; random-chance decided by the generator words around the exact threshold",
+        "LessThanN (3 lenses) on n in 0..6 x value in 0..8 incl. the progress value; iteration-bounded loops n in 0..5 (passes, tests, progress sequence, counter sequence); EveryN on n in 1..6 x value in 0..13; OptimumReached on 3 epsilons x 6 best-value classes incl. the next double above the threshold; ChangeOf on all histories of length <= 5/6 over {0,1,2} (PartialEq) and {0..4} (DeltaEq thresholds 0,1,2); RandomChance on the words 0, p*2^64-1, p*2^64, 2^64-1; And/Or/Not and & | ! on all formulas of depth <= 2, arity <= 2/3: value, exactly-once evaluation of every operand, first error returned.",
+        "Values outside the grids assumed uniform. Best values below the known optimum are outside the alphabet.",
+        "DESIGN.md 5 C10"),
+ "C17":("grid enumeration over generator words","exhaustive sweep of the acceptance word of the generator (evenly spaced grid plus the words adjacent to the exact threshold) for every (delta, T) pair on the real acceptance component; exhaustive enumeration of cooling factor x temperature x executions",
+        "For 8 objective differences x 5 temperatures the acceptance word is swept over 64 (quick) / 1024 (thorough) evenly spaced values, 0, 2^64-1 and the words around exp(-delta/T)*2^53: the candidate must survive exactly when delta <= 0 or u < exp(-delta/T); a decision taken without a generator word must have probability 0 or 1; stack effect checked with a sentinel population. Geometric cooling: temperature equals T0 * alpha^k bit-exactly after k executions.",
+        "The candidate is the top population (as in the SA template). Words within 2^-52 of the threshold may go either way.",
+        "DESIGN.md 5 C17"),
 }
 CHECKS_DONE=1
 BASE=json.load(open('/root/.vp/BASELINE.json'))
